@@ -40,6 +40,9 @@ DeFrom(fs, toks, i, store) ==       \* store: sequence indexed by anchor id -> n
   ELSE (IF t.id \in store THEN <<t.id>> \o DeFrom(fs, toks, i + 1, store) ELSE <<0 - 1>>)
 De(fs) == LET r == DeFrom(fs, Ser(fs), 1, {}) IN IF \E j \in 1..Len(r) : r[j] = 0 - 1 THEN <<0 - 1>> ELSE r
 
+(* "emits each shared node once and references to it elsewhere": how many definitions and aliases the text must hold *)
+DefCount(fs) == Cardinality({j \in 1..Len(Ser(fs)) : Ser(fs)[j].op = "DEF"})
+AliasCount(fs) == Cardinality({j \in 1..Len(Ser(fs)) : Ser(fs)[j].op = "ALIAS"})
 WeakBeforeStrong(fs) == \E i \in 1..Len(fs) : fs[i].k = "W" /\ ~\E j \in 1..(i - 1) : fs[j].k = "S" /\ fs[j].n = fs[i].n
 (* declarative requirement on the classes observed after the round trip (0 = null) *)
 SameSharing(fs, after) ==
